@@ -421,10 +421,18 @@ func (i *interpreter) lockOf(p *value) *lockState {
 	return l
 }
 
+// lockIsVisible: only lock operations of the code under test (and its harness) are scheduling points; locks taken
+// inside library code (context, sync.Once ...) keep their blocking semantics but do not add pre-emption points.
+func lockIsVisible(fr *frame) bool {
+	return fr.caller == nil || fr.caller.fn == nil || fr.i.eng.inRepo(fr.caller.fn)
+}
+
 func intrLock(fr *frame, args []value) value {
 	i := fr.i
 	l := i.lockOf(args[0].(*value))
-	i.yield(false)
+	if lockIsVisible(fr) {
+		i.yield(false)
+	}
 	i.block(func() bool { return l.writer || l.readers > 0 })
 	l.writer = true
 	return nil
@@ -437,14 +445,18 @@ func intrUnlock(fr *frame, args []value) value {
 		panic(targetPanic{"fatal error: sync: unlock of unlocked mutex"})
 	}
 	l.writer = false
-	i.yield(false)
+	if lockIsVisible(fr) {
+		i.yield(false)
+	}
 	return nil
 }
 
 func intrRLock(fr *frame, args []value) value {
 	i := fr.i
 	l := i.lockOf(args[0].(*value))
-	i.yield(false)
+	if lockIsVisible(fr) {
+		i.yield(false)
+	}
 	i.block(func() bool { return l.writer })
 	l.readers++
 	return nil
@@ -457,7 +469,9 @@ func intrRUnlock(fr *frame, args []value) value {
 		panic(targetPanic{"fatal error: sync: RUnlock of unlocked RWMutex"})
 	}
 	l.readers--
-	i.yield(false)
+	if lockIsVisible(fr) {
+		i.yield(false)
+	}
 	return nil
 }
 
